@@ -41,8 +41,11 @@ theorem late_mutation_rejected (c : Core) (h : c.frozen = true) (r : RouteId) :
   · simp only [Core.step, h, Bool.or_true, ↓reduceIte]; split <;> rfl
   · simp only [Core.step, h, ↓reduceIte]; split <;> rfl
   · simp only [Core.step, h, ↓reduceIte]; split <;> rfl
-  · intro hn; simp [registerRes, h, hn]
-  · intro hn; simp [mutateRes, h, hn]
+  · intro hn
+    have : c.objs.contains r = false := by simpa using hn
+    simp only [registerRes, this, h, Bool.or_true, ↓reduceIte, Bool.false_eq_true]
+  · intro hn
+    simp only [mutateRes, hn, h, Bool.not_true, ↓reduceIte, Bool.false_eq_true]
 
 /-- the freeze is for ever: no operation clears the flag -/
 theorem frozen_forever (c : Core) (op : Op) (h : c.frozen = true) : (c.step op).frozen = true := by
@@ -147,7 +150,7 @@ theorem urlfor_roundtrip (pattern : Bytes) (vals : Vals)
     simp only [hp, Bool.not_true, Bool.false_eq_true, if_false]
     have h1' : ('/' :: joinSlash parts = ['/']) = False := by
       simp [hjoin_ne]
-    simp only [h1', decide_false, Bool.false_or, List.cons_ne_nil, if_false, reqSegments, List.head?_cons,
+    simp only [h1', decide_false, Bool.false_or, List.cons_ne_nil, reqSegments, List.head?_cons,
       if_true, List.drop_succ_cons, List.drop_zero, hsplit]
     have hlast : parts.getLast? ≠ some [] := by
       intro hl
@@ -189,8 +192,8 @@ theorem late_version_route_asis :
 open Rivaas.Reverse in
 /-- K12c: a static route with a trailing slash reversed to a path it does not match -/
 theorem urlfor_trailing_slash_asis :
-    buildURLAsIs vb!"/api/" [] = some vb!"/api" ∧ matchRoute vb!"/api/" vb!"/api" = none ∧
-    buildURL vb!"/api/" [] = some vb!"/api/" ∧ matchRoute vb!"/api/" vb!"/api/" = some [] := by decide
+    buildURLAsIs rb!"/api/" [] = some rb!"/api" ∧ matchRoute rb!"/api/" rb!"/api" = none ∧
+    buildURL rb!"/api/" [] = some rb!"/api/" ∧ matchRoute rb!"/api/" rb!"/api/" = some [] := by decide
 
 /-! ### non-vacuity -/
 
@@ -216,10 +219,10 @@ example : specOK kindsEx [1, 2] (run kindsEx schedEx).2
   run_meets_spec kindsEx schedEx [1, 2] (by decide) (by decide)
 
 open Rivaas.Reverse in
-example : (parseReversePattern vb!"/users/:id/posts/:pid").any Seg.isParam = true ∧
-    seenPath vb!"/users/:id/posts/:pid" [(vb!"id", vb!"a b", vb!"a%20b"), (vb!"pid", vb!"7", vb!"7")] =
-      some vb!"/users/a b/posts/7" ∧
-    matchRoute vb!"/users/:id/posts/:pid" vb!"/users/a b/posts/7" = some [(vb!"id", vb!"a b"), (vb!"pid", vb!"7")] := by
+example : (parseReversePattern rb!"/users/:id/posts/:pid").any Seg.isParam = true ∧
+    seenPath rb!"/users/:id/posts/:pid" [(rb!"id", rb!"a b", rb!"a%20b"), (rb!"pid", rb!"7", rb!"7")] =
+      some rb!"/users/a b/posts/7" ∧
+    matchRoute rb!"/users/:id/posts/:pid" rb!"/users/a b/posts/7" = some [(rb!"id", rb!"a b"), (rb!"pid", rb!"7")] := by
   decide
 
 end Rivaas.C12
